@@ -304,6 +304,16 @@ fn spread(s: &str) -> String {
     o.split_whitespace().collect::<Vec<_>>().join(" ")
 }
 
+/// the files and API defines of one generated macro program (for checks that only need inputs of this shape)
+pub fn program_files(seed: u64) -> Option<(Vec<(String, String)>, Vec<(String, String)>)> {
+    let mut rng = Rng::new(seed);
+    let line = gen_program(&mut rng, seed % 5 == 0, seed % 3 == 0);
+    let c = parse_case(&line)?;
+    let files = c.files.iter().map(|(n, its)| (n.clone(), render(its))).collect();
+    let api = c.api.iter().map(|(n, v)| (n.clone(), spell(v))).collect();
+    Some((files, api))
+}
+
 pub fn gen_cases(seed: u64, n: usize, _thorough: bool) -> Vec<String> {
     let mut rng = Rng::new(seed);
     let mut out: Vec<String> = Vec::new();
